@@ -42,7 +42,7 @@ TIERS = {
         "cyc_per_op": {"create": 200, "send": 60, "collect": 80, "drop": 200,
                        "write": 100, "display": 100, "hashkey": 60, "hashset": 40,
                        "equal": 400, "hashfind": 30},
-        "cyc_timeout_ms": 2500, "deep_small_timeout_ms": 15000, "deep_timeout_ms": 30000, "deep_big_timeout_ms": 60000,
+        "cyc_timeout_ms": 2500, "deep_small_timeout_ms": 10000, "deep_timeout_ms": 20000, "deep_big_timeout_ms": 60000,
     },
     "thorough": {
         "cfg": {"MAXN": 4, "FULLN": 2, "LEAFS": "{1, 2}", "BRANCH": 2,
